@@ -45,8 +45,8 @@ from mc.result import Result
 
 ID = "C12"
 LEVEL = "exploration"
-RULE = ("Part A: every assignment of {absent, 22 behaviours} to 3 (quick) / 4 (thorough) rule slots with slot-fixed "
-        "decorations, plus every assignment over the full behaviour x {no tags/links, tag, link, both} alphabet to "
+RULE = ("Part A: every assignment of {absent, 22 behaviours (incl. required / at-least-one / both kinds of dependency missing)} to 3 (quick) / 4 (thorough) rule slots with slot-fixed "
+        "decorations, plus every assignment over the full behaviour x {no tags/links, tag, link, both} alphabet (+ an oversize fail and an oversize metadata response) to "
         "2 / 3 slots, each run through SingleEvaluator serial + incremental, JsonFormat (plain, render_content) and "
         "YamlFormat (quick: rule sets of <= 2 rules) with everything shown; Part S: every multiset of <= 3 / <= 4 outcome kinds x every "
         "(missing, show_rules subset) x {JsonFormat, YamlFormat, JsonFormatterAdapter, YamlFormatterAdapter}; "
@@ -66,10 +66,10 @@ ASSUMPTIONS = [
     "bounded: no counterexample within the stated alphabets, nothing more",
 ]
 BOUNDS = {
-    "quick": {"mixed_slots": 3, "full_slots": 2, "behaviours": 22, "decorations": 4, "yaml_max_rules_part_a": 2,
+    "quick": {"mixed_slots": 3, "full_slots": 2, "behaviours": 23, "full_family_extra_behaviours": 2, "decorations": 4, "yaml_max_rules_part_a": 2,
               "select_multiset_max": {"json": 3, "json-adapter": 2, "yaml": 2, "yaml-adapter": 2},
               "select_options": 128, "constructor_limit": 64, "constructor_sizes": "limit-2..limit+2"},
-    "thorough": {"mixed_slots": 4, "full_slots": 3, "behaviours": 22, "decorations": 4, "yaml_max_rules_part_a": 4,
+    "thorough": {"mixed_slots": 4, "full_slots": 3, "behaviours": 23, "full_family_extra_behaviours": 2, "decorations": 4, "yaml_max_rules_part_a": 4,
                  "select_multiset_max": {"json": 4, "json-adapter": 4, "yaml": 4, "yaml-adapter": 3},
                  "select_options": 128, "constructor_limit": 64, "constructor_sizes": "limit-2..limit+2"},
 }
@@ -101,8 +101,11 @@ HEADING = {"rule": "reports", "fingerprint": "fingerprints", "pass": "pass", "in
 LISTED_BEHS = ["fail:K1", "fail:K2", "pass:K1", "pass:K2", "info:K1", "info:K2",
                "fingerprint:K1", "fingerprint:K2", "none"]
 OTHER_BEHS = ["metadata", "metadata_key:K1", "metadata_key:K2", "nonresp_dict", "nonresp_str", "nonresp_zero",
-              "raise", "invalid", "skip", "unmet_req", "unmet_any", "disabled"]
-BEHS = LISTED_BEHS + OTHER_BEHS                                  # 21 + "absent" = 22 symbols per slot
+              "raise", "invalid", "skip", "unmet_req", "unmet_any", "unmet_both", "disabled"]
+BEHS = LISTED_BEHS + OTHER_BEHS                                  # 22 + "absent" = 23 symbols per slot
+# responses just over the *configured* max_detail_length flowing through the evaluator ('full' family only)
+OVERSIZE_BEHS = ["oversize_fail:K1", "oversize_metadata"]
+UNMET_KINDS = ("unmet_req", "unmet_any", "unmet_both")
 ERROR_KINDS = ("nonresp_dict", "nonresp_str", "nonresp_zero", "raise", "invalid")
 SELECT_KINDS = ["fail:K1", "pass:K1", "info:K1", "fingerprint:K1", "none", "metadata", "metadata_key:K1",
                 "unmet_req", "raise"]                            # one representative per place in the output
@@ -132,6 +135,31 @@ def dep_names(slot):
 
 # ---- the palette of real components -----------------------------------------------------------
 
+def _oversize_kwargs(slot):
+    """Keyword arguments whose rendering alone is one character over the configured limit."""
+    from insights import settings
+    return {"slot": slot, "pad": "a" * (int(settings.defaults["max_detail_length"]) + 1)}
+
+
+def _oversize_stub(slot, base):
+    full = dict(_oversize_kwargs(slot))
+    full.update(base)
+    stub = dict(base)
+    stub["max_detail_length_error"] = len(str(full))
+    return stub
+
+
+def _safe(x):
+    """JSON-safe rendering of expected / observed values (non-string keys, bytes, objects -> repr)."""
+    if isinstance(x, dict):
+        return dict((k if isinstance(k, str) else "<%r>" % (k,), _safe(v)) for k, v in x.items())
+    if isinstance(x, (list, tuple, set, frozenset)):
+        return [_safe(v) for v in x]
+    if x is None or isinstance(x, (str, int, float, bool)):
+        return x
+    return repr(x)
+
+
 def _act(slot):
     from insights.core import plugins as P
     from insights.core.exceptions import SkipComponent
@@ -141,6 +169,10 @@ def _act(slot):
         return getattr(P, KEYED[kind][1])(key, slot=slot)
     if kind == "metadata":
         return P.make_metadata(**{"m%d" % slot: slot, "shared": slot})
+    if kind == "oversize_fail":
+        return P.make_fail(key, **_oversize_kwargs(slot))
+    if kind == "oversize_metadata":
+        return P.make_metadata(**_oversize_kwargs(slot))
     if kind == "metadata_key":
         return P.make_metadata_key(key, "v%d" % slot)
     if kind == "none":
@@ -305,6 +337,9 @@ def _execute(case):
             _ST["dep"][dep_names(slot)["req"]] = False
         elif kind == "unmet_any":
             _ST["dep"][dep_names(slot)["alt"]] = False
+        elif kind == "unmet_both":
+            _ST["dep"][dep_names(slot)["req"]] = False
+            _ST["dep"][dep_names(slot)["alt"]] = False
         elif kind == "disabled":
             disabled.append(fn)
         for k, v in pal["graphs"][(slot, deco)].items():
@@ -431,14 +466,18 @@ def check_rules_case(case):
     md = system.get("metadata") if isinstance(system, dict) else None
 
     md_contrib, mk_contrib = [], {}
+    md_fields, md_oversize = set(["type"]), False
     for slot, beh, deco in present:
-        kind, key = _split(beh)
+        kind0, key = _split(beh)
+        oversize = kind0.startswith("oversize_")
+        kind = kind0[len("oversize_"):] if oversize else kind0     # an oversize response is accounted like a small one
         name = rule_name(slot, deco)
         found = ["list:%s" % h for h, _ in comp_hits.get(name, [])]
         found += ["skip:%s" % h for h, _ in skip_hits.get(name, [])]
         if name in exc:
             found.append("exception")
-        if isinstance(md, dict) and ("m%d" % slot) in md:
+        if isinstance(md, dict) and ("max_detail_length_error" if oversize else "m%d" % slot) in md and \
+                (kind == "metadata" or not oversize):
             found.append("metadata")
         found.sort()
         if kind in KEYED or kind == "none":
@@ -446,8 +485,13 @@ def check_rules_case(case):
             expected = ["list:%s" % HEADING[type_]] if type_ in types_ else []
         elif kind == "metadata":
             expected = ["metadata"] if "metadata" in types_ else []
-            md_contrib.append(slot)
-        elif kind in ("unmet_req", "unmet_any"):
+            if oversize:
+                md_oversize = True
+                md_fields.add("max_detail_length_error")
+            else:
+                md_contrib.append(slot)
+                md_fields.update(["m%d" % slot, "shared"])
+        elif kind in UNMET_KINDS:
             expected = ["skip:skips"] if skips_shown else []
         elif kind in ERROR_KINDS:
             expected = ["exception"]
@@ -455,14 +499,14 @@ def check_rules_case(case):
             expected = []
             if kind == "metadata_key":
                 mk_contrib.setdefault(key, []).append("v%d" % slot)
-        hideable = kind in KEYED or kind in ("none", "metadata", "unmet_req", "unmet_any")
+        hideable = kind in KEYED or kind in ("none", "metadata") or kind in UNMET_KINDS
         if found:
             info["located"] += 1
             info["places"].update(f.split(":")[0] + ":" + kind.split("_")[0] if f.startswith("list") else f for f in found)
         if hideable:
             info["shown" if expected else "hidden"] += 1
         if found != expected:
-            feats = {"driver": driver, "kind": kind}
+            feats = {"driver": driver, "kind": kind0}
             if mode == "selection" and hideable and not expected and found:
                 clause = "selection:shown-though-unselected"
             elif mode == "selection" and hideable and expected and not found:
@@ -491,25 +535,46 @@ def check_rules_case(case):
                       ("id", "%s|%s" % (base, want_key), e.get("%s_id" % type_))]
             if "details" in e:
                 want_d = {"type": type_, key_name: want_key}
-                if kind in KEYED:
+                if oversize:            # the stub keeps only type, key and the offending length
+                    want_d = _oversize_stub(slot, want_d)
+                elif kind in KEYED:
                     want_d["slot"] = slot
                 got_d = dict(e["details"]) if isinstance(e["details"], dict) else e["details"]
                 checks.append(("details", want_d, got_d))
             for field, want, got in checks:
                 if want != got:
                     out.append(("entry:%s" % field, {"rule": name, field: want}, {"rule": name, field: got},
-                                {"driver": driver, "kind": kind, "field": field}))
+                                {"driver": driver, "kind": kind0, "field": field}))
         elif expected and expected[0].startswith("skip:"):
             e = skip_hits[name][0][1]
             dn = dep_names(slot)
-            miss = [dn["req"]] if kind == "unmet_req" else [dn["alt"], dn["never"]]
-            met = [dn["alt"]] if kind == "unmet_req" else [dn["req"]]
+            m_req = [dn["req"]] if kind in ("unmet_req", "unmet_both") else []
+            m_any = [[dn["alt"], dn["never"]]] if kind in ("unmet_any", "unmet_both") else []
+            miss = m_req + [d for g in m_any for d in g]
+            met = [d for d in (dn["req"], dn["alt"]) if d not in miss]
             text = e.get("details") if isinstance(e.get("details"), str) else json.dumps(
                 dict((k, v) for k, v in e.items() if k != "rule_fqdn"), default=repr, sort_keys=True)
             bad = [d for d in miss if d not in text] + ["+" + d for d in met if d in text]
             if bad:
                 out.append(("skip:names-missing-dependencies", {"rule": name, "missing": miss},
                             {"rule": name, "entry": text, "wrong": bad}, {"driver": driver, "kind": kind}))
+            attr = getattr(e, "missing", None)          # the live skip object (SingleEvaluator drivers only)
+            if attr is not None:
+                from insights.core import dr
+                try:
+                    got_m = [[dr.get_name(d) for d in attr[0]], [sorted(dr.get_name(d) for d in g) for g in attr[1]]]
+                except Exception as ex:
+                    got_m = repr(ex)
+                want_m = [m_req, [sorted(g) for g in m_any]]
+                if got_m != want_m:
+                    out.append(("skip:missing-attribute", {"rule": name, "missing": want_m},
+                                {"rule": name, "missing": got_m}, {"driver": driver, "kind": kind}))
+        elif expected == ["metadata"] and oversize:
+            want_n = _oversize_stub(slot, {"type": "metadata"})["max_detail_length_error"]
+            if md.get("max_detail_length_error") != want_n:
+                out.append(("metadata:field-value", {"max_detail_length_error": want_n},
+                            {"max_detail_length_error": md.get("max_detail_length_error")},
+                            {"driver": driver, "kind": kind0}))
         elif expected == ["metadata"]:
             if md.get("m%d" % slot) != slot:
                 out.append(("metadata:field-value", {"m%d" % slot: slot}, {"m%d" % slot: md.get("m%d" % slot)},
@@ -517,6 +582,13 @@ def check_rules_case(case):
     if md_contrib and "metadata" in types_ and isinstance(md, dict) and md.get("shared") not in md_contrib:
         out.append(("metadata:shared-field", {"shared": "one of %s" % md_contrib}, {"shared": md.get("shared")},
                     {"driver": driver, "kind": "metadata"}))
+    # an oversize metadata response is a stub of type + length: nothing else of it may reach system.metadata
+    # (checked only when such a rule is present; a 'type' member is tolerated)
+    if md_oversize and "metadata" in types_ and isinstance(md, dict):
+        foreign = [k for k in md if k not in md_fields]
+        if foreign:
+            out.append(("metadata:stub-keeps-only-type-and-length", sorted(md_fields - set(["type"])),
+                        sorted(map(repr, md)), {"driver": driver, "kind": "oversize_metadata"}))
     # metadata keys: demanded only where nothing filters the response (see module docstring)
     if driver.startswith("single") or not _impl_show(case):
         for k, vals in sorted(mk_contrib.items()):
@@ -676,11 +748,12 @@ def _mixed_symbols(slot):
 
 
 def _full_symbols(slot):
-    return [None] + [[b, d] for b in LISTED_BEHS for d in DECO_ORDER] + [[b, "p"] for b in OTHER_BEHS]
+    return [None] + [[b, d] for b in LISTED_BEHS for d in DECO_ORDER] + [[b, "p"] for b in OTHER_BEHS + OVERSIZE_BEHS]
 
 
 def _in_mixed_family(rules, mixed_slots):
-    return len(rules) <= mixed_slots and all(r is None or r[1] == SLOT_DECO[i] for i, r in enumerate(rules))
+    return len(rules) <= mixed_slots and all(r is None or (r[1] == SLOT_DECO[i] and r[0] in BEHS)
+                                             for i, r in enumerate(rules))
 
 
 def rule_sets(family, n, c0, lo, hi, mixed_slots):
@@ -726,7 +799,7 @@ def units(tier, seed):
     for family, n in (("mixed", b["mixed_slots"]), ("full", b["full_slots"])):
         nsym0 = len(_mixed_symbols(0) if family == "mixed" else _full_symbols(0))
         nsym1 = len(_mixed_symbols(1) if family == "mixed" else _full_symbols(1))
-        per_unit = 1000 if tier == "thorough" else 250             # rule sets per unit, roughly
+        per_unit = 2000 if tier == "thorough" else 250             # rule sets per unit, roughly
         tail = 1
         for s in range(2, n):
             tail *= len(_mixed_symbols(s) if family == "mixed" else _full_symbols(s))
@@ -759,7 +832,7 @@ def _record(res, case, vio, nontrivial, outcome):
     for v in vio:
         clause, exp, got = v[0], v[1], v[2]
         feats = v[3] if len(v) > 3 else {}
-        res.violation(clause, case, exp, got, feats)
+        res.violation(clause, case, _safe(exp), _safe(got), feats)
 
 
 def run_unit(unit, tier):
@@ -816,5 +889,6 @@ def replay(case):
         vio, _ = check_constructor_case(case)
     else:
         vio, _ = check_rules_case(case)
-    return [{"clause": v[0], "case": case, "expected": v[1], "observed": v[2], "features": v[3] if len(v) > 3 else {}}
+    return [{"clause": v[0], "case": case, "expected": _safe(v[1]), "observed": _safe(v[2]),
+             "features": v[3] if len(v) > 3 else {}}
             for v in vio]
